@@ -163,6 +163,10 @@ impl Family for C18Family {
                 op.unknown_type = if r.bool() { vec![true; 4] } else { (0..4).map(|_| r.bool()).collect() };
             }
         }
+        // "all stores": one run in ten uses a store that looks credentials up by RP only and ignores the id list
+        if backend == Backend::Ref && r.chance(1, 10) {
+            c.store.ignore_ids = true;
+        }
         c.twin = Twin::ViaTrait;
         Scenario { family: "C18".into(), batch: if faulty { "faults" } else { "strict" }.into(), seed: master, index, body: Body::Ceremony(c) }
     }
@@ -173,7 +177,7 @@ impl Family for C18Family {
         direct.twin = Twin::None;
         let rec = run_and_measure(&direct, stats);
         let mut j = Judge::new("C18", scn, &rec);
-        for p in ["three_denied_verifications_in_a_row", "capability_changed_between_calls", "get_info_through_trait", "make_credential_through_trait", "get_assertion_through_trait", "failing_op_through_trait", "cancelled_op_through_trait", "zero_length_pin_auth", "configured_transports_in_get_info", "request_above_1024_bytes"] {
+        for p in ["three_denied_verifications_in_a_row", "capability_changed_between_calls", "get_info_through_trait", "make_credential_through_trait", "get_assertion_through_trait", "failing_op_through_trait", "cancelled_op_through_trait", "zero_length_pin_auth", "configured_transports_in_get_info", "request_above_1024_bytes", "store_that_ignores_the_id_list"] {
             stats.declare_probe(p);
         }
         if rec.panic.is_some() || rec.outcome != Outcome2::Done {
@@ -194,6 +198,9 @@ impl Family for C18Family {
                 j.fail("trait-call-did-not-terminate", format!("the direct calls completed in {} steps but the same scenario through Ctap2Api ended with {other:?} after {} steps", rec.steps, rec2.steps));
                 return j.out;
             }
+        }
+        if c.store.ignore_ids {
+            stats.probe("store_that_ignores_the_id_list");
         }
         let mut sig = crate::rng::Fnv::new();
         let mut denials = 0;
